@@ -188,11 +188,16 @@ def finish(prop, known, new, extra_violation_lines=()):
         seen.add(key)
         print(f"KNOWN-FINDING: property={prop} {g['kind']} [{k.get('shape') or '+'.join(k['shapes'])}] {k['what']}")
     code = 0
-    for g, _ in new:
+    # every new group gets a replay file; the console shows the 12 largest groups and a count of the rest
+    ranked = sorted(new, key=lambda gk: -gk[0]["count"])
+    for i, (g, _) in enumerate(ranked):
         path = write_replay(prop, g)
-        print(f"VIOLATION property={prop} replay={path}")
-        print(f"  {g['kind']} @ {g['signature']} ({g['count']} cases)")
+        if i < 12:
+            print(f"VIOLATION property={prop} replay={path}")
+            print(f"  {g['kind']} @ {g['signature']} ({g['count']} cases)")
         code = 1
+    if len(ranked) > 12:
+        print(f"  ... and {len(ranked) - 12} further violation groups of {prop}; replay files are in {REPLAYS}")
     for line in extra_violation_lines:
         print(line)
         code = 1
